@@ -107,7 +107,7 @@ int tls13_gcm_encrypt(const BLOCK_CIPHER_KEY *key, const uint8_t iv[12],
 	uint8_t *mbuf = NULL; // FIXME: update gcm_encrypt API
 	size_t mlen, clen;
 
-	if (!(mbuf = malloc(inlen + 256))) {
+	if (!(mbuf = malloc(inlen + 1 + padding_len))) {
 		error_print();
 		return -1;
 	}
